@@ -922,6 +922,12 @@ func c01Scenarios(res *eng.Result, ss *sigSet) {
 		sc{"grouping-named-like-the-container-using-it", m(`container g { leaf z { type string; } }`), m(`grouping g { leaf z { type string; } } container g { uses g; }`)},
 		sc{"two-scoped-groupings-of-one-name", m(`container a { leaf p { type string; } } container b { leaf q { type string; } }`), m(`container a { grouping g { leaf p { type string; } } uses g; } container b { grouping g { leaf q { type string; } } uses g; }`)},
 	)
+	scs = append(scs,
+		sc{"uses-augment-uses-the-same-grouping", m(`container u { container c { leaf l { type string; } container c { leaf l { type string; } } } }`), m(`grouping g { container c { leaf l { type string; } } } container u { uses g { augment "c" { uses g; } } }`)},
+		sc{"uses-augment-uses-the-same-grouping-twice", m(`container u { container c { leaf l { type string; } container c { leaf l { type string; } } } container d { container c { leaf l { type string; } } } }`), m(`grouping g { container c { leaf l { type string; } } } container u { uses g { augment "c" { uses g; } } container d { uses g; } }`)},
+		sc{"two-uses-augments-of-one-target", m(`container u { container c { leaf l { type string; } leaf y { type string; } leaf z { type string; } } }`), m(`grouping g { container c { leaf l { type string; } } } container u { uses g { augment "c" { leaf y { type string; } } augment "c" { leaf z { type string; } } } }`)},
+		sc{"refine-target-added-by-inner-uses-of-same-grouping", m(`container u { container c { leaf l { type string; description "outer"; } container c { leaf l { type string; } } } }`), m(`grouping g { container c { leaf l { type string; } } } container u { uses g { refine c/l { description "outer"; } augment "c" { uses g; } } }`)},
+	)
 	// what is not YANG written out is not YANG through a grouping or an augment either
 	for _, rj := range []sc{
 		{"same-leaf-in-two-cases", m(`choice ch { case p { leaf z { type string; } } case q { leaf z { type string; } } }`), m(`grouping g { leaf z { type string; } } choice ch { case p { uses g; } case q { uses g; } }`)},
